@@ -311,7 +311,7 @@ func init() {
 		Rule:        "scenario = program with 0-6 definitions forming an acyclic reference graph (chains, diamonds, unused names, names that are prefixes of each other, values with metacharacters and quantifier braces), references in entries, prefix / suffix lines, assemble blocks and included text, undefined names; 3 (quick) / 6 (thorough) variants with the definition lines permuted and moved to arbitrary positions (also into blocks) x identity + 2 / 5 seeded map-iteration schedules; oracle: stdout and exit of `regex generate` equal those of the program expanded by a 10-line reference substitution with the definition lines deleted. Non-trivial = at least one definition and the reference run compiles; distinct = distinct (world, variants, schedules).",
 		Gen:         genC07,
 		Eval:        evalC07,
-		QuickChecks: 350, ThoroughChecks: 6000, Timeout: 20 * time.Second,
+		QuickChecks: 350, ThoroughChecks: 3500, Timeout: 20 * time.Second,
 		Assumptions: []string{
 			"computed names and duplicate definitions are excluded, as the property's quantifier says",
 			"when both the program and its hand expansion fail to compile the runs count as equal (messages are not compared)",
